@@ -270,7 +270,12 @@ def passthrough_types_probe(R):
                PassThroughOptions(types={datetime.date}, collections=True)]
     for tp, v, conv in cases:
         for check_type in (False, True):
-            base = json.dumps(serialize(tp, v, conversion=conv, check_type=check_type), sort_keys=True)
+            try:
+                base = json.dumps(serialize(tp, v, conversion=conv, check_type=check_type), sort_keys=True)
+            except Exception as e:   # noqa
+                R.violation(f"serialize({tp}, ..., check_type={check_type}) does not give JSON data: {type(e).__name__}: {e}",
+                            dict(type=str(tp), value=repr(v), check_type=check_type))
+                continue
             for pt in options:
                 R.count("passthrough_types_probe")
                 info = dict(type=str(tp), value=repr(v), pass_through=repr(pt), conversion=getattr(conv, "__name__", None), check_type=check_type)
